@@ -40,6 +40,11 @@ type LoopSpec struct {
 	HasModifies bool
 	Modifies    []Expr
 	ModSrc      []string
+	// Of ("loop N of F"): the N-th loop of function F as INLINED into the function of this contract (F has no callable
+	// contract, so its body is encoded in place). The clauses are evaluated in the scope of the function of this contract
+	// extended by the locals of the inlined frames (see Env.outer); Owner is the contract that carries the block.
+	Of    string
+	Owner *Contract
 }
 
 // CallSpec: per call-site annotations inside a function ("call F@1 invariant ...") – reserved.
@@ -84,6 +89,9 @@ type Contract struct {
 	Assumed       bool
 	NoInline      bool
 	Loops         map[int]*LoopSpec
+	// InlinedLoops: "loop N of F" blocks — invariants for loops of callees that are inlined into this function, keyed by
+	// the callee name as written (matched against the short name of the inlined function or its part after the last dot)
+	InlinedLoops map[string]map[int]*LoopSpec
 	// CallAsserts: "at call F@n assert [label] expr" — assertions over the function's own locals, checked right before
 	// the n-th (source order) call of F in this function; key "call:F@n"
 	CallAsserts map[string][]*Clause
@@ -438,6 +446,18 @@ func (db *SpecDB) parseSpecFile(file string, pkgPath string) {
 				continue
 			}
 			curLoop = &LoopSpec{Ordinal: n}
+			if f := strings.Fields(rest); len(f) >= 3 && f[1] == "of" {
+				// loop N of F: a loop of the callee F inlined into this function
+				curLoop.Of, curLoop.Owner = f[2], cur
+				if cur.InlinedLoops == nil {
+					cur.InlinedLoops = map[string]map[int]*LoopSpec{}
+				}
+				if cur.InlinedLoops[f[2]] == nil {
+					cur.InlinedLoops[f[2]] = map[int]*LoopSpec{}
+				}
+				cur.InlinedLoops[f[2]][n] = curLoop
+				continue
+			}
 			cur.Loops[n] = curLoop
 		default: // clause
 			if cur == nil {
